@@ -3,9 +3,19 @@
 Real code: RateLimiter / RateLimit, imported from the repository at run time and used as the cloud
 sessions use it: `async with limiter: ...`.  The limiter reads `time.time()` (simulated: integer epoch
 + loop time) and sleeps with `asyncio.sleep` (simulated timer).
-Actors: K entrant tasks doing seeded sequences of think / `async with limiter` / short body.  Per task a
+Actors: K entrant actors doing seeded sequences of think / `async with limiter` / short body.  Per actor a
 pace (bursty, about one window, about two windows) decides the think times, so some runs hammer the
-limiter with simultaneous arrivals and some let whole windows expire.
+limiter with simultaneous arrivals and some let whole windows expire.  Every entry runs in a task of its
+own; its body ends normally, raises (p=1/6), or the entry is cancelled (fault task.cancel, p=0.12, by a
+timer 0..max(8, window) ticks after the invoke: while it is suspended in `__aenter__` or inside the body).
+An admitted entry whose body fails or is cancelled was still admitted and counts; an entry cancelled while
+it waits was never admitted and simply leaves.
+Fault loop.stall: a staller actor (stream `fault:loop.stall`, 0..3 times per run) makes simulated time
+jump forward by 1..2*window ticks inside one callback (a synchronous hog of the event loop); every timer
+due in the skipped span -- in particular the limiter's own sleep -- fires late, at the new now.  The kernel
+has no public API for that; the scenario advances `loop._now` (on the tick grid).  The oracles use the loop's
+real admission instants; an entrant cannot be admitted while the loop is stalled, and the "as soon as
+possible" oracle is evaluated only at idle instants, i.e. after the late timers have run.
 
 Exactness: the loop clock lives on a 2^-20 s grid, the window is a multiple of 1/1024 s, the epoch is an
 integer < 2^31, so epoch + t, now - window, the remaining-time subtraction and the timer deadline are all
@@ -34,6 +44,14 @@ Sensitivity (mutants of hail/python/hailtop/utils/rate_limiter.py in a scratch c
 * never expires (`while` loop removed)                    -> caught  C24/asap/blocked_with_room_in_window (negative sleep: spins)
 * `while` -> `if` in the expiry loop                      -> not caught: behaviour-equivalent (the deque never holds more
                                                              than `count` items and one pop is enough to admit)
+Seeded changes of the coordinator (tools/run_seeded.py <name> C24, quick):
+* C24-1 after the sleep take over the oldest slot unchecked   -> caught  C24/rate/more_than_count_in_window
+* C24-2 `now` read once, `now += delay` after the sleep       -> caught  C24/rate/more_than_count_in_window and
+                                                                 C24/asap/blocked_with_room_in_window (needs loop.stall:
+                                                                 the sleep overshoots, the stale clock stamps too early /
+                                                                 sleeps again although the window has room)
+* C24-3 `__aexit__` pops the newest stamp when the body raised -> caught  C24/rate/more_than_count_in_window (needs a body that
+                                                                 raises or is cancelled and another entry within the window)
 """
 import asyncio
 
@@ -41,13 +59,15 @@ from simkit.core import Violation
 from worlds.common import simulate
 
 NAME = 'prims.ratelimit'
-RULE = ('count 1..5, window 1..24 (thorough 1..64) ticks of 1/1024 s, integer epoch offset, 1..6 (8) entrant tasks x '
-        '1..4 (6) entries, per-task pace: think 0..3 ticks / 0..window / 0..2*window, body 0..4 ticks')
+RULE = ('count 1..5, window 1..24 (thorough 1..64) ticks of 1/1024 s, integer epoch offset, 1..6 (8) entrant actors x '
+        '1..4 (6) entries each in a task of its own, per-actor pace: think 0..3 ticks / 0..window / 0..2*window, body '
+        '0..4 ticks ending normally or by exception (p=1/6), per-entry cancellation (p=0.12) after 0..max(8,window) '
+        'ticks, 0..3 loop stalls of 1..2*window ticks at seeded instants')
 COMPONENTS = {
     'hailtop.utils.rate_limiter.RateLimiter': 'real',
     'hailtop.utils.rate_limiter.RateLimit': 'real',
     'time.time / asyncio.sleep': 'simulated clock and timers (SimLoop, 2^-20 s grid, integer epoch)',
-    'entrant tasks': 'simulator actors',
+    'entrant actors, canceller timers, staller (advances the loop clock)': 'simulator actors',
 }
 ASSUMPTIONS = ['asyncio.sleep/Task semantics are those of CPython 3.12 running on the simulated loop',
                'window lengths are multiples of 1/1024 s and the epoch is an integer, so the limiter\'s float '
